@@ -110,6 +110,32 @@ def path(c, job):
         c.reach("sonar")
         c.prove("C18.sonar scaled-reading", s_close_rel(got, exp), info=dict(sensor=job["sensor"], unit=job["unit"]))
         return
+    if kind == "sonar2":
+        # both driver kinds alive in one process with the same output unit, built in either order, read twice
+        import builtins
+
+        import robotpy_ext.common_drivers.xl_max_sonar_ez as xs
+
+        out = U[job["unit"]]
+        old_print = builtins.print
+        builtins.print = lambda *a, **k: None
+        try:
+            order = c.choose("order", 2)
+            mk = [lambda: xs.MaxSonarEZPulseWidth(0, out), lambda: xs.MaxSonarEZAnalog(1, out)]
+            a, b = (mk[0](), mk[1]()) if order == 0 else tuple(reversed((mk[1](), mk[0]())))
+            r = c.real("period", 0, 1)
+            v = c.real("volts", 0, 5)
+            env.p[id(a.counter)] = r
+            env.v[id(b.analog)] = v
+            ga, gb = a.get(), b.get()
+            ga2 = a.get()
+        finally:
+            builtins.print = old_print
+        c.reach("sonar2")
+        c.prove("C18.sonar scaled-reading", s_close_rel(ga, (r / 0.000147) * (M_PER["inch"] / M_PER[job["unit"]])), info=dict(sensor="pulse", unit=job["unit"], both=True))
+        c.prove("C18.sonar scaled-reading", s_close_rel(gb, (v / 0.0049) * (M_PER["centimeter"] / M_PER[job["unit"]])), info=dict(sensor="analog", unit=job["unit"], both=True))
+        c.prove("C18.sonar scaled-reading", s_eq(ga, ga2), info=dict(repeat=True))
+        return
     if kind == "pressure":
         import robotpy_ext.common_drivers.pressure_sensors as ps
 
@@ -141,6 +167,17 @@ def path(c, job):
             c.prove("C18.pressure never-raises", not raised)
             if not raised:
                 c.prove("C18.pressure calibrated-reads-known-pressure", s_close(p2, kp), info=dict())
+            # calibrating again (another pressure, another voltage) replaces the earlier calibration
+            v3 = c.real("v3", 0.00001, 10)
+            env.v[id(s.sensor)] = v3
+            kp2 = c.real("known2", 0, 500)
+            try:
+                s.calibrate(kp2)
+                p4 = s.pressure
+                c.reach("calibrated-twice")
+                c.prove("C18.pressure calibrated-reads-known-pressure", s_close(p4, kp2), info=dict(second=True))
+            except Exception:
+                c.prove("C18.pressure never-raises", False)
             # a different voltage after calibration: scales with V/Vn
             v2 = c.real("v2", 0.00001, 10)
             env.v[id(s.sensor)] = v2
@@ -171,6 +208,7 @@ class C18(Spec):
         chains = [[3], [3, 0.5], [3, 0.5, 7.25], [2.54, 12, 3, 1760]]
         j += [dict(kind="chain", factors=f) for f in chains]
         j += [dict(kind="sonar", sensor=s, unit=n) for s in ("pulse", "analog") for n in names]
+        j += [dict(kind="sonar2", unit=n) for n in names]
         j += [dict(kind="pressure"), dict(kind="pressure", sym_vcc=True), dict(kind="pressure", calibrate=True),
               dict(kind="pressure", sym_vcc=True, calibrate=True)]
         return j
@@ -180,7 +218,7 @@ class C18(Spec):
                     sensors="period in [0,1] s, voltage in [-10,10] V, supply in [-10,10] V, calibration pressure in [0,500]")
 
     def reach_required(self, tier):
-        return ["triple", "chain", "sonar", "pressure", "calibrated"]
+        return ["triple", "chain", "sonar", "sonar2", "pressure", "calibrated", "calibrated-twice"]
 
     def path_fn(self, c, job):
         path(c, job)
